@@ -59,6 +59,17 @@ def multi_sp_peer(snap):
 class SessionX(T.Session):
 
     def apply(self, op):
+        """as Session.apply; an op whose *arguments* cannot be built (a value spec the sliver classes refuse to construct, e.g. a
+        generated `Labels(vlan='None')`) is not a call at all: ValueError, which run_history skips.  Exceptions of the call
+        itself never get here (apply catches them and reports the outcome)."""
+        try:
+            return self._apply(op)
+        except ValueError:
+            raise
+        except Exception as e:
+            raise ValueError("op cannot be built %r: %s %s" % (op.get("op"), type(e).__name__, str(e)[:80]))
+
+    def _apply(self, op):
         k = op["op"]
         if k in ("add_switch", "add_facility") and any(f in op for f in ("nslabels", "portlabels", "portcaps", "nstype_none")):
             return self._composite_x(op)
